@@ -206,20 +206,34 @@ def stage_codecs(ctx, env):
     # wildcard pattern lists
     from asyncssh.pattern import WildcardPatternList
     cases = []
-    alpha = ['a', 'b', '*', '?', '[', ']', '.', 'é', 'ab', '**', '*a', '-']
-    vals = ['', 'a', 'b', 'ab', 'ba', 'aab', 'a.b', '[', 'a]', 'é', 'abab', '*', '?', 'a-b', '!a']
+    alpha = ['a', 'b', '*', '?', '[', ']', '.', 'é', 'ab', '**', '*a', '-', 'A', 'B', 'É', 'Ab', ' ']
+    vals = ['', 'a', 'b', 'ab', 'ba', 'aab', 'a.b', '[', 'a]', 'é', 'abab', '*', '?', 'a-b', '!a', 'A', 'AB', 'Ab', 'aB', 'É', 'a ', ' a', 'a.']
+    # near misses that must not match: case variants, unicode case folding, trailing dot, whitespace
+    NEAR = [('alice', 'Alice'), ('Alice', 'alice'), ('a*', 'ALICE'), ('ALICE', 'alice'), ('rémi', 'RÉMI'), ('RÉMI', 'rémi'),
+            ('straße', 'STRASSE'), ('strasse', 'straße'), ('ǆ', 'ǅ'), ('i', 'İ'), ('ı', 'I'), ('k', '\u212a'), ('alice', 'alice.'),
+            ('alice.', 'alice'), ('alice', 'alice '), ('alice', ' alice'), ('alice ', 'alice'), ('file', 'File'), ('FILE', 'file'),
+            ('f?le', 'FILE'), ('release@example.com', 'Release@example.com'), ('*@example.com', 'bob@EXAMPLE.COM'),
+            ('*,!alice', 'Alice'), ('alice', 'alice'), ('a*', 'aLICE'), ('*@example.com', 'Bob@example.com'), ('é', 'e\u0301')]
     nmatch = 0
-    for _ in range(1200 if ctx.tier == 'thorough' else 350):
+    for it in range(len(NEAR) + (1200 if ctx.tier == 'thorough' else 350)):
         pl = []
         for _k in range(rng.randrange(1, 4)):
             pat = ''.join(rng.choice(alpha) for _ in range(rng.randrange(0, 4)))
             pl.append((rng.random() < 0.25, pat))
         text = ','.join(('!' if n else '') + p for n, p in pl)
+        if it < len(NEAR):
+            text = NEAR[it][0]
         # the text form is re-split by the implementation: keep the structured form consistent with it
         pl = [(t.startswith('!'), t[1:] if t.startswith('!') else t) for t in text.split(',')]
         v = rng.choice(vals) if rng.random() < 0.7 else ''.join(rng.choice('ab.[é') for _ in range(rng.randrange(0, 5)))
+        if it < len(NEAR):
+            v = NEAR[it][1]
         got = bool(WildcardPatternList(text).matches(v))
         nmatch += got
+        if got != my_patlist(pl, v):
+            ctx.failing_input(f'principal/namespace pattern list {text!r} {"matches" if got else "does not match"} {v!r} '
+                              '(matching must be exact, case-sensitive wildcard matching)',
+                              dict(kind='wmatch', patterns=text, value=v, expect=not got))
         cases.append('(%s, %s, %s)' % (coq_patlist(pl), zs(v), cbool(got)))
         ctx.note_case(('wmatch', text, v), nontrivial='*' in text or '?' in text or '!' in text)
     ctx.count('wmatch.matched', nmatch)
@@ -982,6 +996,125 @@ def gen_patlist(rng, pool):
     return pl
 
 
+def feed_fifo(path, bursts, gap=0.05):
+    """writer thread: delivers the bursts one write each, with a pause between them"""
+    import threading
+    import time as _t
+
+    def w():
+        try:
+            fd = os.open(path, os.O_WRONLY)
+            try:
+                for i, b in enumerate(bursts):
+                    if i:
+                        _t.sleep(gap)
+                    os.write(fd, b)
+            finally:
+                os.close(fd)
+        except OSError:
+            pass
+    t = threading.Thread(target=w, daemon=True)
+    t.start()
+    return t
+
+
+def stage_message_sources(ctx, env, tmp):
+    import pathlib
+    a = env.a
+    rng = ctx.rng
+    key = env.user
+    line = ('alice ' + key.export_public_key().decode().strip() + '\n').encode()
+    sizes = [0, 5, 300, 8192, 65536, 65537, 200000, 1200000]
+    sd_cases = []
+    n = 0
+    for size in sizes:
+        msg = bytes(rng.randrange(256) for _ in range(min(size, 4096))) * (size // 4096 + 1)
+        msg = msg[:size]
+        k = max(1, size // 3)
+        bursts = [msg[i:i + k] for i in range(0, size, k)] or [b'']
+        reg = os.path.join(tmp, 'msg%d' % size)
+        with open(reg, 'wb') as f:
+            f.write(msg)
+        fifo = os.path.join(tmp, 'fifo%d' % size)
+        os.mkfifo(fifo)
+
+        def via(kind):
+            """-> (argument for the API, writer thread or None)"""
+            if kind == 'bytes':
+                return msg, None
+            if kind == 'str_path':
+                return reg, None
+            if kind == 'purepath':
+                return pathlib.PurePath(reg), None
+            return fifo, feed_fifo(fifo, bursts)
+        kinds = ['bytes', 'str_path', 'purepath', 'fifo']
+        sig_ref = env.sshsig_blob(key, None, msg)
+        for ck in kinds:
+            arg, th = via(ck)
+            try:
+                raw = a.create_sshsig(a.load_keypairs([key]), arg, raw=True)
+            except Exception as e:
+                raw = None
+                ctx.failing_input(f'create_sshsig with the message given as {ck} ({size} bytes) raises {e!r}',
+                                  dict(kind='sshsig_source', size=size, how=ck, op='create'))
+            if th:
+                th.join(10)
+            for vk in kinds:
+                if raw is None or (ck != 'bytes' and vk != 'bytes' and ck != vk and size > 70000):
+                    continue
+                arg2, th2 = via(vk)
+                try:
+                    ok = bool(a.validate_sshsig(arg2, raw, 'alice', line))
+                except Exception as e:
+                    ok = 'raised ' + type(e).__name__
+                if th2:
+                    th2.join(10)
+                n += 1
+                ctx.count('sshsig_source.%s_then_%s' % (ck, vk))
+                if ok is not True:
+                    ctx.failing_input(f'SSHSIG made over a {size}-byte message supplied as {ck} does not validate when the same bytes '
+                                      f'are supplied as {vk} ({ok}; FIFO delivers {len(bursts)} bursts)',
+                                      dict(kind='sshsig_source', size=size, how=ck, how_validate=vk, op='roundtrip'))
+            # a signature over the first burst only must not validate for the whole message, however supplied
+            if size >= 300 and len(bursts) > 1:
+                sig_prefix = env.sshsig_blob(key, None, bursts[0])
+                for vk in ('bytes', 'fifo', 'str_path'):
+                    arg2, th2 = via(vk)
+                    try:
+                        ok = bool(a.validate_sshsig(arg2, sig_prefix, 'alice', line))
+                    except Exception:
+                        ok = False
+                    if th2:
+                        th2.join(10)
+                    n += 1
+                    if ok:
+                        ctx.failing_input(f'a signature over the first {len(bursts[0])} bytes validates for the whole {size}-byte '
+                                          f'message supplied as {vk} ({len(bursts)} bursts)',
+                                          dict(kind='sshsig_source', size=size, how_validate=vk, op='prefix'))
+            ctx.note_case(('sshsig_source', size, ck), nontrivial=size > 0)
+        # model correspondence of _signed_data for the path forms (small messages only: Coq literals)
+        if size <= 300:
+            sdf = getattr(a.sshsig, '_signed_data', None)
+            for how in ('str_path', 'fifo'):
+                for ih in (False, True):
+                    if sdf is None:
+                        continue
+                    arg, th = via(how)
+                    try:
+                        sd = sdf(arg, ih, b'sha256', 'file')
+                    except ValueError:
+                        sd = None
+                    if th:
+                        th.join(10)
+                    chunks = bursts if how == 'fifo' else [msg]
+                    dg = [(x.encode(), hashlib.new(x, msg).digest()) for x in ('sha256', 'sha512')]
+                    sd_cases.append('(%s, %s, %s, %s, %s, %s)' % (clist(chunks, zl), cbool(ih), zl(b'sha256'), zl(b'file'),
+                                                               clist(dg, lambda d: '(%s, %s)' % (zl(d[0]), zl(d[1]))), copt(sd, zl)))
+    ctx.cov['oracle']['sshsig_message_source_checks'] = n
+    submit(ctx, 'signed_data_path', 'chk_signed_data_path', sd_cases,
+           'list bytes * bool * bytes * bytes * list (bytes * bytes) * option bytes', 200)
+
+
 def stage_sshsig(ctx, env):
     rng = ctx.rng
     thorough = ctx.tier == 'thorough'
@@ -1239,6 +1372,58 @@ def _stage_sshsig(ctx, env, rng, thorough, a, tmp):
             ctx.failing_input(what, dict(kind='sshsig', msg=b'payload'.hex(), sig=raw.hex(), principal='alice', signers=ca_line,
                                          now=T0, is_hashed=False, expect='accept' if expect else 'reject', signer=ckind,
                                          alteration='none'))
+
+    # targeted: near misses of principals and namespaces (case, unicode case folding, trailing dot, whitespace)
+    upub = env.user.export_public_key().decode().strip()
+    near = [('release@example.com', None, 'release@example.com', 'file', True), ('release@example.com', None, 'Release@example.com', 'file', False),
+            ('Release@example.com', None, 'release@example.com', 'file', False), ('*@example.com', None, 'bob@EXAMPLE.COM', 'file', False),
+            ('alice', 'file', 'alice', 'file', True), ('alice', 'file', 'alice', 'File', False), ('alice', 'FILE', 'alice', 'file', False),
+            ('alice', 'f*', 'alice', 'FILE', False), ('alice', None, 'alice.', 'file', False), ('alice.', None, 'alice', 'file', False),
+            ('alice', None, 'alice ', 'file', False), ('alice', None, ' alice', 'file', False), ('rémi', None, 'RÉMI', 'file', False),
+            ('RÉMI', None, 'rémi', 'file', False), ('straße', None, 'STRASSE', 'file', False), ('alice', 'file', 'alice', 'file.', False),
+            ('alice', 'git,file', 'alice', 'Git', False), ('a*,!alice', None, 'Alice', 'file', False), ('a*', None, 'aLICE', 'file', True)]
+    kg_near = 0
+    for ppat, nspat, ident, nsname, expect in near:
+        ent = Entry([(t.startswith('!'), t.lstrip('!')) for t in ppat.split(',')], False,
+                    None if nspat is None else [(False, t) for t in nspat.split(',')], None, None, env.user)
+        line = ent.line() + '\n'
+        raw = env.sshsig_blob(env.user, None, b'payload', namespace=nsname)
+        with L.Recorder() as rec:
+            try:
+                ok = bool(a.validate_sshsig(b'payload', raw, ident, line.encode()))
+                got = 0 if ok else 1
+            except ValueError:
+                ok, got = False, 2
+        if rec.available and not rec.odd_exc:
+            dg = [(h.encode(), hashlib.new(h, b'payload').digest()) for h in ('sha256', 'sha512')]
+            t_cases.append('(%s, %s, %s, %s, %s, %s, %s, %s, %s, %s, %s)' % (
+                zl(b'payload'), cbool(False), zl(raw), zs(ident), clist([ent], lambda e: e.coq()), cz(T0), coq_calls(rec.sig_calls),
+                clist(rec.pub_ok, zl), clist(ADDRS_OK, zl), clist(dg, lambda d: '(%s, %s)' % (zl(d[0]), zl(d[1]))), cz(got)))
+        ctx.count('sshsig_near_miss.' + ('accept' if ok else 'reject'))
+        ctx.note_case(('sshsig_near', ppat, nspat, ident, nsname), nontrivial=True)
+        if ok != expect:
+            ctx.failing_input(f'allowed-signers entry for principals {ppat!r} namespaces {nspat!r}: signature by identity {ident!r} in '
+                              f'namespace {nsname!r} {"validates" if ok else "is refused"} (principal and namespace matching is exact, '
+                              'case-sensitive wildcard matching)',
+                              dict(kind='sshsig', msg=b'payload'.hex(), sig=raw.hex(), principal=ident, signers=line, now=None,
+                                   is_hashed=False, expect='accept' if expect else 'reject', signer='key', alteration='near_miss'))
+        if L.KEYGEN and (ppat + (nspat or '') + ident + nsname).isascii() and ident == ident.strip():
+            arm = b'-----BEGIN SSH SIGNATURE-----\n' + base64.encodebytes(raw) + b'-----END SSH SIGNATURE-----\n'
+            kg = L.keygen_verify(tmp, b'payload', arm, line, ident, nsname)
+            if kg is not None:
+                kg_near += 1
+                if kg != ok:
+                    ctx.count('ssh_keygen_Y_disagreements.near_miss', group='oracle')
+                    if ok and not kg:
+                        ctx.failing_input(f'asyncssh validates identity {ident!r} / namespace {nsname!r} against {line!r}; '
+                                          'ssh-keygen -Y verify refuses it',
+                                          dict(kind='sshsig', msg=b'payload'.hex(), sig=raw.hex(), principal=ident, signers=line, now=None,
+                                               is_hashed=False, expect='reject', signer='key', alteration='near_miss', oracle='ssh-keygen'))
+    ctx.cov['oracle']['ssh_keygen_Y_near_miss_runs'] = kg_near
+
+    # every way of supplying the message: bytes, str path, PurePath, FIFO fed in several bursts, empty, > 64 KiB, > 1 MiB.
+    # The signed data depends only on the message bytes.
+    stage_message_sources(ctx, env, tmp)
 
     submit(ctx, 'sshsig_targeted', 'chk_sshsig', t_cases, 'bytes * bool * bytes * list Z * list as_entry * Z * sig_calls * list bytes '
                                                           '* list bytes * list (bytes * bytes) * Z', 40)
@@ -1563,6 +1748,14 @@ def replay(rp):
                     accepted = False
         print('accepted' if accepted else 'rejected', '(expected %s)' % rp['expect'])
         return 1 if accepted != (rp['expect'] == 'accept') else 0
+    if kind == 'sshsig_source':
+        print('replay of message-source cases needs the FIFO writer; run ./check C16 (deterministic, every run)')
+        return 2
+    if kind == 'wmatch':
+        from asyncssh.pattern import WildcardPatternList
+        got = bool(WildcardPatternList(rp['patterns']).matches(rp['value']))
+        print('matches ->', got, '(expected %s)' % rp['expect'])
+        return 1 if got != rp['expect'] else 0
     if kind == 'tz_window':
         c = dict(rp['case'])
         c['nows'] = [rp['now']] if rp.get('now') is not None else [c['pnow']]
